@@ -3,6 +3,7 @@
 package mq
 
 import (
+	"bufio"
 	"errors"
 	"io"
 )
@@ -25,6 +26,17 @@ func zzOneFrame(f []byte) {
 	zzAssert((e1 == nil) == (e2 == nil), "the result depends on bytes after the frame")
 	if e1 == nil && e2 == nil {
 		zzViewEq(zzSnap(q2), zzSnap(q1), "bytes after the frame change the packet")
+	}
+	// the same stream behind a bufio.Reader (which also offers Peek, Discard,
+	// ReadByte, WriteTo ...): what has been taken from the stream is what the
+	// bufio.Reader took minus what it still holds
+	r3 := &zzContig{b: s1}
+	br := bufio.NewReaderSize(r3, 4096)
+	q3, e3 := ReadPacket(br)
+	zzAssert(r3.i-br.Buffered() == len(f), "ReadPacket through a bufio.Reader does not consume exactly one frame")
+	zzAssert((e1 == nil) == (e3 == nil), "the result depends on the kind of reader")
+	if e1 == nil && e3 == nil {
+		zzViewEq(zzSnap(q3), zzSnap(q1), "reading through a bufio.Reader changes the packet")
 	}
 	zzEmitU("consumed", uint64(r1.i))
 	zzEmitU("err", zzB2U(e1 != nil))
